@@ -104,3 +104,31 @@ _ROW = re.compile(r'\{\s*"([^"]*)"\s*,\s*[^,{}]*,\s*([A-Za-z_][\w:]*)\s*\}')
 def static_table(init_text):
     """Reader idiom: static constexpr table `{ {"lit", sizeof("lit") - 1, Enum::X}, ... }`.  Returns {literal: enumerator-suffix}."""
     return {m.group(1): m.group(2) for m in _ROW.finditer(init_text or "")}
+
+
+def compared_literals(func):
+    """string literals handed to a comparison routine anywhere in func (strncmp/memcmp/match_raw/match_string/... and ==)"""
+    out = set()
+    for e in func.events("call"):
+        c = e.get("callee") or ""
+        if c in MATCHERS or e.get("op") in ("==", "!=") or c.rsplit("::", 1)[-1] in ("compare",):
+            for a in e.get("args", []):
+                k = a.get("const")
+                if isinstance(k, str) and k.startswith("s:"):
+                    out.add(k[2:])
+    return out
+
+
+def assigned_enums(func, field_suffix=None):
+    """enumerators stored (anywhere in func, including through ?:) into a field whose name ends with field_suffix"""
+    out = set()
+    for e in func.events("assign"):
+        if field_suffix is not None and not (e["lhs"].get("f") or "").endswith(field_suffix):
+            continue
+        en = _enum_of(e.get("const"))
+        if en:
+            out.add(en)
+        for r in (e.get("refs") or []):
+            if isinstance(r, str) and r.startswith("e:"):
+                out.add(r[2:])
+    return out
